@@ -267,6 +267,23 @@ def judge_stoch(pattern, h, w, origin, seeds):
         return n, f'stochastic view can show {sorted(vmax - det)} which the deterministic ray-traced view never shows'
     if not every <= vmin:
         return n, f'cells {sorted(every - vmin)} are reached lit by every ray but can be hidden by the stochastic view'
+    if some != every:
+        # the same bounds on the OBSERVATION (the masking step must follow the mask cell by cell): a world equal to the view,
+        # the agent on the origin facing north, the view area placed so that view cell (i, j) is world cell (i, j)
+        rows = tuple(tuple(WALL if pattern >> (y * w + x) & 1 else FLOOR for x in range(w)) for y in range(h))
+        area = ((-origin[0], h - 1 - origin[0]), (-origin[1], w - 1 - origin[1]))
+        s = (rows, origin[0], origin[1], 'F', NONE)
+        for fill, lo_set, hi_set, what in ((1 - 1e-9, every, None, 'hides'), (1e-9, None, det, 'shows')):
+            n += 1
+            o = O.observe('stochastic_raytracing', area, mkstate(s), fill=fill)
+            if isinstance(o[0], str):
+                return n, f'stochastic_raytracing observation raised {o[1]}: {o[2]}'
+            shown = {(i, j) for i in range(h) for j in range(w) if o[0][i][j] != HIDDEN}
+            if lo_set is not None and not lo_set <= shown:
+                return n, (f'the stochastic_raytracing OBSERVATION hides cells {sorted(lo_set - shown)} that every ray reaches lit '
+                           f'(draws just below 1)')
+            if hi_set is not None and not shown <= hi_set:
+                return n, f'the stochastic_raytracing OBSERVATION shows cells {sorted(shown - hi_set)} the deterministic view never shows'
     if det != some:
         return n, None  # deterministic view is judged in part (a); nothing more to say here
     for sd in seeds:
@@ -275,6 +292,20 @@ def judge_stoch(pattern, h, w, origin, seeds):
         if not (vmin <= v <= vmax):
             return n, f'numpy seed {sd}: visible set outside the bounds given by the extreme draws'
     return n, None
+
+
+def _stoch_wall_work(job):
+    h, w, origin, pats, seeds = job
+    n = 0
+    fails = []
+    for pattern in pats:
+        k, m = judge_stoch(pattern, h, w, origin, seeds)
+        n += k
+        if m and len(fails) < 2:
+            fails.append({'kind': 'stoch', 'pattern': pattern, 'h': h, 'w': w, 'origin': list(origin), 'seeds': list(seeds),
+                          'message': f'view {show_pattern(pattern, h, w, origin)}: {m}',
+                          'sig': {'fn': 'stochastic_raytracing', 'part': 'wall_rows'}, 'simplicity': h * w})
+    return n, len(pats), fails
 
 
 def _stoch_work(job):
@@ -389,6 +420,27 @@ def run(rep, tier, seed):
         step = max(64, total // 16)
         for lo in range(0, total, step):
             sjobs.append((h, w, origin, lo, min(total, lo + step), seeds))
+    # deeper views than an exhaustive pattern space allows: one wall row at distance 1..3 in front of the agent with every
+    # subset of gaps (rows of partially lit cells with fully lit cells beyond them), heights 4..6, widths 5, 7, 9
+    wall_jobs = []
+    for h in (4, 5, 6):
+        for w in (5, 7, 9):
+            origin = (h - 1, w // 2)
+            pats = []
+            for d in (1, 2, 3):
+                yw = h - 1 - d
+                if yw < 1:
+                    continue
+                for gaps in range(1 << w):
+                    pats.append(sum(1 << (yw * w + x) for x in range(w) if not gaps >> x & 1))
+            for lo in range(0, len(pats), 96):
+                wall_jobs.append((h, w, origin, pats[lo:lo + 96], seeds[:1]))
+    sn = sp = 0
+    for n, pats, fl in pmap(_stoch_wall_work, wall_jobs):
+        sn += n
+        sp += pats
+        fails.extend(fl)
+    rep.part('stochastic_bounds_wall_rows', patterns=sp, evaluations=sn, heights=[4, 5, 6], widths=[5, 7, 9])
     sn = sp = 0
     for n, pats, fl in pmap(_stoch_work, sjobs):
         sn += n
